@@ -206,6 +206,15 @@ class Optimizer(Identifiable, Runnable):
             int(key): value for key, value in optimizer_state["state"].items()
         }
         self.optimizer.load_state_dict(optimizer_state)
+        # torch casts every floating point state tensor to the dtype of its
+        # parameter: restore the tensors that were saved with another dtype
+        # (e.g. eta and mu of ASGD, mu_product of NAdam) as they were
+        params = [p for group in self.optimizer.param_groups for p in group["params"]]
+        for index, saved_state in optimizer_state["state"].items():
+            state = self.optimizer.state[params[index]]
+            for key, value in saved_state.items():
+                if isinstance(value, torch.Tensor) and state[key].dtype != value.dtype:
+                    state[key] = value.to(device=state[key].device)
         if self.scheduler is not None:
             self.scheduler.load_state_dict(state_dict["scheduler"])
 
